@@ -41,38 +41,6 @@ ASSUMPTIONS = [
 UNSET = object()
 
 
-class _EvilRepr:
-    """A value that cannot even be printed (error paths format the offending value)."""
-
-    def __repr__(self):
-        raise RuntimeError("repr() of the offending value raises")
-
-    __str__ = __repr__
-
-
-class _EvilInt(int):
-    def __repr__(self):
-        raise RuntimeError("repr() of an int subclass raises")
-
-    __str__ = __repr__
-
-
-class _EvilStr(str):
-    def encode(self, *a, **k):
-        raise RuntimeError("encode() of a str subclass raises")
-
-
-EVIL = {"$evil-repr": _EvilRepr, "$evil-int": lambda: _EvilInt(7), "$evil-bigint": lambda: _EvilInt(1 << 80),
-        "$evil-str": lambda: _EvilStr("abc")}
-
-
-def materialise(v):
-    """Replay files carry markers for values that are not JSON-able."""
-    if isinstance(v, str) and v in EVIL:
-        return EVIL[v]()
-    return v
-
-
 def floors(tier):
     return {"kind=int": 500, "kind=scaled": 300, "kind=flag": 200, "kind=bytes": 50, "kind=float": 50,
             "kind=count": 50, "kind=disc": 30, "refused": 1500, "accepted": 500, "outside": 2000}
@@ -153,8 +121,6 @@ def scaled_fields(defn):
 
 
 def value_kind(v, size=None):
-    if isinstance(v, (_EvilRepr, _EvilInt, _EvilStr)):
-        return "unprintable"
     if size is not None and isinstance(v, (bytes, bytearray, str, list)):
         n = len(v.encode("utf-8", "backslashreplace")) if isinstance(v, str) else len(v)
         base = value_kind(v)
@@ -349,7 +315,7 @@ def check(case) -> core.Out:
 
     mode, clsid, defname, bf, nodes = (case["mode"], bytes(case["clsid"]), case["defname"],
                                        case["bf"], case["nodes"])
-    hostile = [(a, materialise(v)) for a, v in case["hostile"]]
+    hostile = [(a, v) for a, v in case["hostile"]]
     t = C.find_target(mode, clsid, defname)
     out = core.Out(classes=[f"bf={bf}"])
     if t is None:
